@@ -174,5 +174,87 @@ theorem subspaceMatvec_spec (Ps Bs : List (Op α)) (isT : Bool) (x : Tensor α) 
   intro r hr
   rw [g r hr, Tensor.get_ofFn _ _ _ (by simp only [hx, List.getD_cons_zero]; exact ⟨hr, trivial⟩), zero_add]
 
+/-! ### words over `{T, H}`: transposition is an involution on every operator class -/
+
+omit [CommSemiring α] in
+theorem Op.T_T (B : Op α) : B.T.T = B := rfl
+
+omit [CommSemiring α] in
+theorem kronT_kronT (ops : List (Op α)) : kronT (kronT ops) = ops := by
+  unfold kronT
+  rw [List.map_map]
+  conv => rhs; rw [← List.map_id ops]
+  apply List.map_congr_left
+  intro B _
+  rfl
+
+omit [CommSemiring α] in
+theorem BaseBlock.T_T (B : BaseBlock α) : B.T.T = B := by
+  cases B with
+  | mk M N ops ro ri =>
+    simp only [BaseBlock.T, List.map_map]
+    congr 1
+    conv => rhs; rw [← List.map_id ops]
+    apply List.map_congr_left
+    intro B _
+    rfl
+
+omit [CommSemiring α] in
+theorem Subspace.T_T (S : Subspace α) : S.T.T = S := by
+  cases S; simp [Subspace.T]
+
+omit [CommSemiring α] in
+theorem Subspace.H_H (S : Subspace α) : S.H.H = S := by
+  cases S with
+  | mk Ps Bs isT =>
+    simp only [Subspace.H, List.map_map]
+    congr 1
+    conv => rhs; rw [← List.map_id Bs]
+    apply List.map_congr_left
+    intro B _
+    rfl
+
+omit [CommSemiring α] in
+theorem Subspace.T_H_comm (S : Subspace α) : S.T.H = S.H.T := rfl
+
+/-- transposing the local operator and flipping `_is_transpose` cancel -/
+theorem subspaceTerm_T_not (P B : Op α) (isT : Bool) (n : Nat) (x : Tensor α) (r : Nat) :
+    subspaceTerm P B.T (!isT) n x r = subspaceTerm P B isT n x r := by
+  unfold subspaceTerm
+  cases isT <;> simp [Op.T]
+
+/-- `X.T.H` (and `X.H.T`) is the same operator as `X` for real data: term by term -/
+theorem subspace_TH_terms (n : Nat) (x : Tensor α) (r : Nat) (isT : Bool) : ∀ (Ps Bs : List (Op α)),
+    ((Ps.zip (Bs.map Op.T)).map (fun p => subspaceTerm p.1 p.2 (!isT) n x r)).sum
+      = ((Ps.zip Bs).map (fun p => subspaceTerm p.1 p.2 isT n x r)).sum
+  | [], _ => by simp
+  | _ :: _, [] => by simp
+  | P :: Ps, B :: Bs => by
+    simp only [List.map_cons, List.zip_cons_cons, List.sum_cons]
+    rw [subspaceTerm_T_not, subspace_TH_terms n x r isT Ps Bs]
+
+omit [CommSemiring α] in
+theorem subOk_T (n : Nat) : ∀ (Ps Bs : List (Op α)), (∀ p ∈ Ps.zip Bs, SubOk n p) →
+    ∀ p ∈ Ps.zip (Bs.map Op.T), SubOk n p
+  | [], _, _, p, hp => by simp at hp
+  | _ :: _, [], _, p, hp => by simp at hp
+  | P :: Ps, B :: Bs, h, p, hp => by
+    simp only [List.map_cons, List.zip_cons_cons, List.mem_cons] at hp
+    rcases hp with rfl | hp
+    · obtain ⟨a, b, c⟩ := h (P, B) (by simp)
+      exact ⟨a, by simpa [Op.T] using c, by simpa [Op.T] using b⟩
+    · exact subOk_T n Ps Bs (fun q hq => h q (by simp [hq])) p hp
+
+/-- **`X.T.H` acts like `X`**: same result vector, for any family of subspaces -/
+theorem subspace_TH_same (S : Subspace α) (x : Tensor α) (n : Nat)
+    (hok : ∀ p ∈ S.Ps.zip S.Bs, SubOk n p) (hx : x.shape = [n]) :
+    ∃ y y', subspaceMatvec S.T.H.Ps S.T.H.Bs S.T.H.isT x = .ok y ∧ subspaceMatvec S.Ps S.Bs S.isT x = .ok y' ∧
+      y.shape = [n] ∧ y'.shape = [n] ∧ ∀ r, r < n → y.get [r] = y'.get [r] := by
+  obtain ⟨y', e', s', g'⟩ := subspaceMatvec_spec S.Ps S.Bs S.isT x n hok hx
+  obtain ⟨y, e, s, g⟩ := subspaceMatvec_spec S.Ps (S.Bs.map Op.T) (!S.isT) x n (subOk_T n S.Ps S.Bs hok) hx
+  refine ⟨y, y', e, e', s, s', ?_⟩
+  intro r hr
+  rw [g r hr, g' r hr, subspace_TH_terms]
+
 end
 end Pyiga.Ops
